@@ -79,6 +79,11 @@ CHECKS = {
    text="auth_only_if_verified (state issued < 120 s ago — regenerated constant —, code exchanged, ID token present and verified, non-empty user-name claim, session user = that claim), failure_keeps_session and failure_then_connect_redirects (every failure point, store-independent), stale_state_refused, unauthenticated_redirected; legacy_file_store_authenticates proves defect D21 of the pinned callback (repaired). Tie: full browser flows against the real handlers for every failure point × both stores, identities with several claim names, then /connect (200 vs 302, restored user name); every single-character substitution and truncation of a valid session cookie and cross-instance reuse must not authenticate.",
    design="6/C13",
    note="ID-token verification is go-oidc's, cookie integrity securecookie's, identity serialisation gob's: those clauses are explored, not proved. State expiry (2 min) is proved on the model and tied by the regenerated constant only (the harness cannot advance go-cache's clock)."),
+ "C11": dict(
+   technique="Lean 4 theorems about a resource model of the tunnel handlers (acquisitions and deferred releases in source order, the packet loop an arbitrary behaviour) with the handlers' deferred calls regenerated from the source by the extractor + fault-matrix correspondence against the real handler (goroutine dump, registry, cache, gauges, backend and client sockets) and the real binary (/metrics)",
+   text="ws_released, legacy_released, legacy_refused_released, released (every transport × every ending the loop notices × every loop behaviour ends with connections closed, backend closed, relay stopped, handler gone, registry/cache/gauges restored), extracted_released (the same for the deferred calls as they are in gateway.go now: Generated/Lifecycle.lean is rewritten from the source on every run, so removing or moving a defer breaks this theorem), each_release_needed, registry_balanced; pinned_leaks (D18, D19) and out_drop_unnoticed / parked_out_held (the statement's missing case, D20) are theorems too, in Props/C11.lean. Tie: both transports × 10 points of the exchange × CLOSE_CHANNEL / out-of-order packet / unframeable bytes / TCP close and reset of the websocket, the legacy IN and the legacy OUT connection × hosts that close on end of stream or keep their side open and keep writing; 3 s after the ending the check requires end-of-stream at the host and failing host writes, end-of-stream on every client connection the client did not end, no goroutine with a frame in the gateway's protocol/transport packages, empty registry and cache, gauges at 0, and compares released / not released with Lifecycle.life; then websocket tunnels over the real binary (TLS, local authentication) with the gauges read from /metrics.",
+   design="6/C11",
+   note="partial: which client-side events make Processor.Process return (Lifecycle.loopEnds) is a table validated by the fault matrix, not derived from the Go text; the bound is fixed at 3 s; goroutines are observed only in-process (API tier), the binary tier sees sockets and gauges. Known findings: loss of the legacy OUT connection alone, and a parked OUT request, are not released (D20)."),
  "C12": dict(
    technique="Lean 4 theorems about the download decision procedure composed with the cookie and policy models + differential correspondence of the real Authenticated/HandleDownload handlers and token generators, and replay of issued files through the real tunnel checks",
    text="unauth_no_token, host_policy (per mode), claims_exact, splitAt_no_sep, file_host_is_token_host, issue_then_accept_partial (issued host+token pass Cookie.check, checkSession and checkHost from the same address within 360 s, provided the chosen entry has no placeholder or the IdP subject equals the session user name), issue_then_accept_counterexample (known finding D22) in Props/C12.lean. Tie: the real handlers on generated modes × lists × host parameters (incl. valid/expired/forged/wrong-issuer query tokens) × users × templates × addresses × session states; file lines and token claims decoded independently; issued (host, token) presented to the real CheckPAACookie → CheckSession(CheckHost).",
